@@ -49,9 +49,103 @@ func init() {
 				return 10_000
 			}, Run: c15Pixels,
 				Rule: "a full-rectangle path filled with a gradient is rasterised by raster/vec into an RGBA image at a non-zero rectangle origin; interior pixels must equal the reference colour at the rectangle-relative pixel centre (8-bit, +-2)",
-				Min:  map[string]int64{"pixel_checks": 50000}},
+				Min:  map[string]int64{"pixel_checks": 50000, "rectangle_overhangs_image_top_left": 1000}},
+			{Name: "gradient-type", N: func(t string) uint64 {
+				if t == "thorough" {
+					return 5_000_000
+				}
+				return 100_000
+			}, Run: c15Type,
+				Rule: "the exported paint type used directly: render.Gradient.Init against the same gradient assembled from render.AppendRanges called piecewise (slices with and without spare capacity), and a Gradient value re-initialised after another stop list; the ranges must be those of the stop list and At must agree at PRNG pixels",
+				Min:  map[string]int64{"gradients": 50000, "piecewise_without_spare_capacity": 10000, "points_compared": 500000}},
 		},
 	})
+}
+
+// c15Type exercises render.Gradient, render.AppendRanges and render.MakeRange
+// as a caller of package render would.
+func c15Type(c *run.Ctx, idx uint64) {
+	r := c.Rng(idx)
+	n := r.Pick(2, 2, 3, 4, 5, 8, 12, 58)
+	stops := make([]render.Stop, n)
+	off := 0.0
+	for i := range stops {
+		off += r.Uniform(0.001, 1/float64(n+1))
+		k := gen.Premul(r)
+		stops[i] = render.Stop{Offset: off, RGBA64: color.RGBA64{uint16(k.R) * 257, uint16(k.G) * 257, uint16(k.B) * 257, uint16(k.A) * 257}}
+	}
+	shape, spread := render.Shape(r.Intn(2)), render.Spread(r.Intn(4))
+	m := render.Aff3{r.Uniform(-0.1, 0.1), r.Uniform(-0.1, 0.1), r.Uniform(-1, 1), r.Uniform(-0.1, 0.1), r.Uniform(-0.1, 0.1), r.Uniform(-1, 1)}
+	desc := func(extra map[string]interface{}) interface{} {
+		d := map[string]interface{}{"stops": fmt.Sprint(stops), "shape": int(shape), "spread": int(spread), "matrix": fmt.Sprint(m)}
+		for k, v := range extra {
+			d[k] = v
+		}
+		return d
+	}
+	c.Count("gradients", 1)
+	c.Eval(run.Hash64(idx, uint64(n)), true)
+	var g1, g2, g3 render.Gradient
+	ok := c.Guard("Gradient", func() interface{} { return desc(nil) }, func() {
+		g1.Init(shape, spread, m, stops)
+		// piecewise: two or three calls, the intermediate slice with or without spare capacity
+		// (the first piece needs two stops: a range list without ranges has no final stop to continue from)
+		k := n
+		if n >= 3 {
+			k = r.Range(2, n-1)
+		}
+		a := render.AppendRanges(nil, stops[:k])
+		if r.Bool() {
+			a = a[:len(a):len(a)]
+			c.Count("piecewise_without_spare_capacity", 1)
+		} else {
+			a = append(make([]render.Range, 0, len(a)+n+3), a...)
+		}
+		switch {
+		case k == n:
+		case n-k >= 2 && r.Bool():
+			j := r.Range(k+1, n-1)
+			a = render.AppendRanges(a, stops[k:j])
+			a = a[:len(a):len(a)]
+			a = render.AppendRanges(a, stops[j:])
+		default:
+			a = render.AppendRanges(a, stops[k:])
+		}
+		g2 = render.Gradient{Shape: shape, Spread: spread, Pix2Grad: m, Ranges: a, First: stops[0].RGBA64, Last: stops[n-1].RGBA64}
+		// a Gradient value that held another gradient before
+		other := []render.Stop{{Offset: 0.2, RGBA64: color.RGBA64{A: 0xffff}}, {Offset: 0.3, RGBA64: color.RGBA64{R: 0x8080, A: 0x8080}}, {Offset: 0.9, RGBA64: color.RGBA64{}}}
+		g3.Init(render.ShapeRadial, render.SpreadReflect, render.Aff3{1, 0, 0, 0, 1, 0}, other[:r.Range(2, 3)])
+		g3.Init(shape, spread, m, stops)
+	})
+	if !ok {
+		return
+	}
+	// the ranges are those of the stop list
+	for name, g := range map[string]*render.Gradient{"Init": &g1, "piecewise AppendRanges": &g2, "Init on a used Gradient": &g3} {
+		if len(g.Ranges) != n-1 {
+			c.Violate("gradient-type/range-count", desc(map[string]interface{}{"built_by": name, "ranges": len(g.Ranges)}))
+			return
+		}
+		for i := range g.Ranges {
+			if g.Ranges[i] != render.MakeRange(stops[i], stops[i+1]) {
+				c.Violate("gradient-type/range", desc(map[string]interface{}{"built_by": name, "index": i, "range": fmt.Sprintf("%+v", g.Ranges[i])}))
+				return
+			}
+		}
+		if g.First != stops[0].RGBA64 || g.Last != stops[n-1].RGBA64 {
+			c.Violate("gradient-type/first-last", desc(map[string]interface{}{"built_by": name}))
+			return
+		}
+	}
+	for i := 0; i < 12; i++ {
+		x, y := r.Range(-40, 40), r.Range(-40, 40)
+		a, b, d := g1.At(x, y), g2.At(x, y), g3.At(x, y)
+		c.Count("points_compared", 1)
+		if a != b || a != d {
+			c.Violate("gradient-type/At-differs", desc(map[string]interface{}{"pixel": []int{x, y}, "Init": fmt.Sprint(a), "piecewise": fmt.Sprint(b), "reinitialised": fmt.Sprint(d)}))
+			return
+		}
+	}
 }
 
 type c15Grad struct {
@@ -433,6 +527,18 @@ func c15Pixels(c *run.Ctx, idx uint64) {
 	q := c15Gen(r, true)
 	w, h := q.rect.Dx(), q.rect.Dy()
 	img := image.NewRGBA(q.rect.Inset(-3).Union(image.Rect(0, 0, 1, 1))) // the image may have negative bounds
+	// One time in four the rectangle overhangs the image at the top and/or on the
+	// left: the visible part shows the same gradient pixels as it would in a
+	// larger image (a gradient-filled rectangle may be partly off-image).
+	ox, oy := 0, 0
+	if r.Chance(1, 4) {
+		ox, oy = r.Intn(q.rect.Dx()), r.Intn(q.rect.Dy())
+		if ox == 0 && oy == 0 {
+			ox = q.rect.Dx() / 2
+		}
+		img = image.NewRGBA(image.Rect(q.rect.Min.X+ox, q.rect.Min.Y+oy, q.rect.Max.X+3, q.rect.Max.Y+3))
+		c.Count("rectangle_overhangs_image_top_left", 1)
+	}
 	var z render.Renderer
 	z.SetRasterizer(&vec.Rasterizer{Dst: img, DrawOp: draw.Src}, q.rect)
 	z.Reset(q.vb, ivg.DefaultPalette)
@@ -453,8 +559,8 @@ func c15Pixels(c *run.Ctx, idx uint64) {
 	if c.WantSample() {
 		c.Sample(q.desc())
 	}
-	for y := 0; y < h; y++ {
-		for x := 0; x < w; x++ {
+	for y := oy; y < h; y++ {
+		for x := ox; x < w; x++ {
 			if (x+y)%3 != 0 && w*h > 200 {
 				continue
 			}
